@@ -123,8 +123,8 @@ PROPS["C09"] = dict(
     diff_fields=r"(load:.*|.*)",
     diff_fields_by_stream={"core": r"load:.*", "fetch": r".*"},
     spec_ids=["C09"],
-    technique="Lean 4: invariant over all accepted event lists of the fetcher transition system (fetch_unbounded_complete), closure = source entry set, loaders on any fetch result; trace validation of the real fetcher against the model",
-    level_text="Kernel-checked for every accepted event list (every concurrency level, dispatch and completion order): an unbounded fault-free fetch returns exactly the closure of the requested heads, duplicate-free; for a stored log that is closed and lies below its heads this closure is the log's entry set; all four loaders then give the same id and entry set (heads and values follow from C02/C03 and are compared on the implementation). Tied to the code by validating every observed dispatch/completion of the real fetcher as an enabled model event with equal result lists, and by the four loaders on random reachable logs in the core stream.",
+    technique="Lean 4: invariant over all accepted event lists of the fetcher transition system (fetch_unbounded_complete), closure = source entry set, loaders on any fetch result rebuild id/entries/heads/values (rebuilt_equals_original via inv_transfer, values_fn_of_set); trace validation of the real fetcher against the model",
+    level_text="Kernel-checked for every accepted event list (every concurrency level, dispatch and completion order): an unbounded fault-free fetch returns exactly the closure of the requested heads, duplicate-free; for a stored log that is closed and lies below its heads this closure is the log's entry set; all four loaders then rebuild the replica (rebuilt_equals_original: for every replica satisfying the log invariant Inv of every reachable system state, every accepted unbounded execution from its head hashes and each of NewFromMultihash/NewFromEntryHash/NewFromJSON/NewFromEntry: the invariant holds again, same id, same entries, same heads, and the same Values() whenever the ordering is a strict total order on its entries). Tied to the code by validating every observed dispatch/completion of the real fetcher as an enabled model event with equal result lists, and by the four loaders on random reachable logs in the core stream.",
     level_note=FETCH_NOTE,
     design_ref="§8 C09",
     rule=FETCH_RULE,
